@@ -415,7 +415,7 @@ def stream_dfxp_doc_text(ctx, res):
     rng = ctx.rng
     dist = res["distribution"]
     cases = []
-    for _ in range(ctx.n(150, 3000)):
+    for _ in range(ctx.n(100, 3000)):
         lang = rng.choice(LANGS + ["pt-BR", "x"])
         caps = []
         for _ in range(rng.choice([1, 1, 2, 3, 5]) if rng.random() > 0.03 else 60):
@@ -530,6 +530,145 @@ def stream_reuse_after_error(ctx, res):
                     "three": len(bad_caps) == 3})
     dist["writer_objects_reused_after_a_write_that_raised"] = raised
 
+# ---- round 4: the SAMI DOCUMENT at string level (request 208 = coq/model/SamiWriteDoc.v) ------------------------------
+def stream_sami_doc_text(ctx, res):
+    """one language of sorted, non-overlapping captions (each at least 1 ms long, below 24 h - 4 s) given as clean text lines:
+    the text the string-level writer model prints must be the real SAMIWriter's (difference recorded); the real text is read
+    back by the real SAMIReader (violation: starts and non-final ends floored to the ms, the last cue 4 s) and its part from
+    <body> on by the string-level reader model (request 123; disagreement) - theorem C02_sami_document_string."""
+    from pycaption import SAMIWriter, SAMIReader, CaptionSet, CaptionList, Caption, CaptionNode
+    rng = ctx.rng
+    dist = res["distribution"]
+    cases = []
+    for _ in range(ctx.n(60, 2500)):
+        lang = rng.choice(LANGS + ["pt-BR", "x"])
+        t = rng.choice([0, 1, 999, 1000, 59999000, 3599999000, rng.randrange(0, 80000) * 10**6])
+        caps = []
+        for _ in range(rng.choice([1, 1, 2, 3, 5]) if rng.random() > 0.03 else 40):
+            a = t + rng.choice([0, 0, 1, 999, 1000, 123456, 10**7])
+            b = a + rng.choice([1000, 1001, 1999, 2500000, 59999999])
+            t = b
+            lines = [" ".join(rng.choice(DOC_ATOMS) for _ in range(rng.choice([1, 1, 2, 3]))) for _ in range(rng.choice([1, 1, 2, 3]))]
+            caps.append([a, b, lines])
+        if caps[-1][1] < 86396000000:
+            cases.append((lang, caps))
+    outs = oracle_batch([(208, [lang, caps]) for (lang, caps) in cases])
+    reals = []
+    for (lang, caps) in cases:
+        pc = []
+        for (a, b, lines) in caps:
+            nodes = []
+            for i, l in enumerate(lines):
+                if i:
+                    nodes.append(CaptionNode.create_break())
+                nodes.append(CaptionNode.create_text(l))
+            pc.append(Caption(a, b, nodes))
+        reals.append(impl.call(lambda: SAMIWriter().write(CaptionSet({lang: CaptionList(pc)}))))
+    bodies = []
+    for r in reals:
+        k = r.v.find("<body>") if isinstance(r, Ok) else -1
+        bodies.append(r.v[k:] if k >= 0 else "")
+    models_real = oracle_batch([(123, [[[lang.lower(), lang]], b]) for (lang, _), b in zip(cases, bodies)])
+    ndiff = 0
+
+    def unwire(m):
+        return [[l, [list(x) for x in c]] for (l, c) in m[1]] if m[0] == 0 else m
+
+    for (lang, caps), o, real, mr in zip(cases, outs, reals, models_real):
+        res["evaluations"] += 1
+        want_t = [[a // 1000 * 1000, b // 1000 * 1000] for (a, b, _) in caps]
+        want_t[-1][1] = want_t[-1][0] + 4000000
+        want = [[lang, want_t]]
+        if not isinstance(real, Ok):
+            res["violations"].append({"kind": "sami-document-round-trip", "writer": "sami", "replay": "sami-doc",
+                                      "what": "SAMIWriter raised %r for %s" % (real, caps), "input": [lang, caps]})
+            continue
+        if o == [-1] or real.v != o[0]:
+            ndiff += 1
+            res.setdefault("document_text_differences", []).append({"input": [lang, caps], "model": (o[0] if o != [-1] else "")[:300],
+                                                                    "impl": real.v[:300]})
+        back = impl.call(lambda: [[l, [[c.start, c.end] for c in cs.get_captions(l)]]
+                                  for cs in [SAMIReader().read(real.v)] for l in cs.get_languages()])
+        if not (isinstance(back, Ok) and back.v == want):
+            res["violations"].append({"kind": "sami-document-round-trip", "writer": "sami", "replay": "sami-doc",
+                                      "what": "SAMIWriter document for %s read back by SAMIReader as %s, expected %s"
+                                              % (caps, back.v if isinstance(back, Ok) else repr(back), want),
+                                      "input": [lang, caps]})
+            continue
+        if o != [-1] and unwire(o[2]) != want:
+            res["disagreements"].append({"what": "string-level SAMI reader model on the writer model's document", "input": [lang, caps],
+                                         "model": unwire(o[2]), "expected": want})
+        if unwire(mr) != want and not (mr[0] == 1 and mr[1] == 199):
+            res["disagreements"].append({"what": "string-level SAMI reader model on the real writer's document", "input": [lang, caps],
+                                         "model": unwire(mr), "expected": want})
+        for (a, b, _) in caps:
+            if a >= 60 * 10**6 or a % 1000:
+                res["nontrivial"].add(("sami-doc", a, b))
+    dist["sami_documents_compared_with_string_level_writer_model"] = len(cases)
+    dist["sami_documents_differing_from_string_level_writer_model"] = ndiff
+
+def stream_dfxp_doc_langs(ctx, res):
+    """round 4: 2-3 languages of captions given as clean text lines: the text of the multi-language writer model (request
+    209: one <div> per language) against the real DFXPWriter's (difference recorded); the real text read back by the real
+    DFXPReader (violation) and by the string-level reader model (request 121, disagreement): every language, every caption,
+    floored to the millisecond."""
+    from pycaption import DFXPWriter, DFXPReader, CaptionSet, CaptionList, Caption, CaptionNode
+    rng = ctx.rng
+    dist = res["distribution"]
+    cases = []
+    for _ in range(ctx.n(40, 1000)):
+        names = rng.sample(LANGS + ["pt-BR", "x"], rng.choice([2, 2, 3]))
+        langs = []
+        for nm in names:
+            caps = []
+            for _ in range(rng.choice([1, 2, 3])):
+                a, b = int(gen_time(rng)), int(gen_time(rng))
+                if b < a:
+                    a, b = b, a
+                lines = [" ".join(rng.choice(DOC_ATOMS) for _ in range(rng.choice([1, 2]))) for _ in range(rng.choice([1, 1, 2]))]
+                caps.append([a, b, lines])
+            langs.append([nm, caps])
+        cases.append(langs)
+    texts = oracle_batch([(209, langs) for langs in cases])
+    reals = []
+    for langs in cases:
+        d = {}
+        for (nm, caps) in langs:
+            pc = []
+            for (a, b, lines) in caps:
+                nodes = []
+                for i, l in enumerate(lines):
+                    if i:
+                        nodes.append(CaptionNode.create_break())
+                    nodes.append(CaptionNode.create_text(l))
+                pc.append(Caption(a, b, nodes))
+            d[nm] = CaptionList(pc)
+        reals.append(impl.call(lambda: DFXPWriter().write(CaptionSet(d))))
+    models_real = oracle_batch([(121, r.v if isinstance(r, Ok) else "") for r in reals])
+    ndiff = 0
+    for langs, text, real, mr in zip(cases, texts, reals, models_real):
+        res["evaluations"] += 1
+        want = [[nm, [[a // 1000 * 1000, b // 1000 * 1000] for (a, b, _) in caps]] for (nm, caps) in langs]
+        if not isinstance(real, Ok):
+            res["violations"].append({"kind": "dfxp-document-round-trip", "writer": "dfxp", "replay": "none-langs",
+                                      "what": "DFXPWriter raised %r for %s" % (real, langs), "input": langs})
+            continue
+        if real.v != text:
+            ndiff += 1
+        back = impl.call(lambda: [[l, [[c.start, c.end] for c in cs.get_captions(l)]]
+                                  for cs in [DFXPReader().read(real.v)] for l in cs.get_languages()])
+        if not (isinstance(back, Ok) and sorted(back.v) == sorted(want)):
+            res["violations"].append({"kind": "dfxp-document-round-trip", "writer": "dfxp", "replay": "none-langs",
+                                      "what": "multi-language DFXPWriter document read back by DFXPReader as %s, expected %s"
+                                              % (back.v if isinstance(back, Ok) else repr(back), want), "input": langs})
+            continue
+        mm = [[l, [list(x) for x in c]] for (l, c) in mr[1]] if mr[0] == 0 else mr
+        if mm != want and not (mr[0] == 1 and mr[1] == 199):
+            res["disagreements"].append({"what": "string-level reader model on the real multi-language DFXP document",
+                                         "input": langs, "model": mm, "expected": want})
+    dist["dfxp_multi_language_documents_compared_with_writer_model"] = len(cases)
+    dist["dfxp_multi_language_documents_differing_from_writer_model"] = ndiff
+
 
 def run(ctx):
     rng = ctx.rng
@@ -539,7 +678,7 @@ def run(ctx):
     fill_scc_pool(rng)
     dist["scc_reader_times_in_pool"] = len(SCC_POOL)
     dist["scc_reader_times_non_integer"] = sum(1 for t in SCC_POOL if isinstance(t, float))
-    n = ctx.n(300, 10000)
+    n = ctx.n(270, 10000)
     cases = []
     for i in range(n):
         nl = rng.choice([1, 1, 2, 2, 3])
@@ -716,6 +855,8 @@ def run(ctx):
                         % dist["tokens_differing_from_model_but_accepted"])
     stream_dfxp_doc_text(ctx, res)
     stream_reuse_after_error(ctx, res)
+    stream_sami_doc_text(ctx, res)
+    stream_dfxp_doc_langs(ctx, res)
     if ctx.thorough:
         sweep(ctx, res)
     res["rule"] = ("caption sets of 1-3 languages, 1-6 captions, EVERY language arbitrary (runs, overlaps, unsorted, "
@@ -754,7 +895,10 @@ def run(ctx):
                     "DFXP DOCUMENT at string level (wave 7): the written text is a well-formed rendering whose begin / end "
                     "attributes are the writer model's tokens, and the string-level reader model reads it back as one "
                     "caption per caption, in order, floored to the millisecond, for every caption list with integer times "
-                    "below 24 h (C02_dfxp_document_wellformed, _tokens, _string)"],
+                    "below 24 h (C02_dfxp_document_wellformed, _tokens, _string)",
+                    "SAMI DOCUMENT at string level (round 4): the written body text, read by the string-level SAMI reader "
+                    "model, yields every caption of a timeline with start and non-final end floored to the ms and the "
+                    "4 s tail (C02_sami_document_string)"],
         "definitional_or_partial": ["C02_mdvd_frames_floor_partial, C02_sami_start_integer_partial: model and spec are the "
                                     "same exact-rational floor; content = the decimal printer round trip; the binary64 "
                                     "computation of the real writers is NOT modelled",
@@ -852,6 +996,25 @@ def replay(ctx, rec):
         a = impl.call(lambda: w.write(good))
         b = impl.call(lambda: makers[rec["writer"]]().write(good))
         return not (isinstance(a, Ok) and isinstance(b, Ok) and a.v == b.v), repr(a)[:300]
+    if rec.get("replay") == "none-langs":
+        return True, rec.get("what")
+    if rec.get("replay") == "sami-doc":
+        from pycaption import SAMIReader
+        lang, caps = rec["input"]
+        pc = []
+        for (a, b, lines) in caps:
+            nodes = []
+            for i, l in enumerate(lines):
+                if i:
+                    nodes.append(CaptionNode.create_break())
+                nodes.append(CaptionNode.create_text(l))
+            pc.append(Caption(a, b, nodes))
+        want_t = [[a // 1000 * 1000, b // 1000 * 1000] for (a, b, _) in caps]
+        want_t[-1][1] = want_t[-1][0] + 4000000
+        back = impl.call(lambda: [[l, [[c.start, c.end] for c in cs.get_captions(l)]]
+                                  for cs in [SAMIReader().read(SAMIWriter().write(CaptionSet({lang: CaptionList(pc)})))]
+                                  for l in cs.get_languages()])
+        return not (isinstance(back, Ok) and back.v == [[lang, want_t]]), repr(back)
     if rec.get("replay") == "dfxp-doc":
         from pycaption import DFXPWriter, DFXPReader, CaptionSet, CaptionList, Caption, CaptionNode
         lang, caps = rec["input"]
